@@ -4,7 +4,10 @@
 set -u
 P=$(realpath "$1"); ID=$2; TIER=${3:-quick}
 WT=/var/tmp/try-$$-$ID
-git -C /repo worktree add --detach "$WT" HEAD -q || exit 9
+BASE=HEAD
+M="$(dirname "$P")/meta.json"
+if [ -f "$M" ]; then B=$(python3 -c "import json,sys; print(json.load(open(sys.argv[1])).get('base_commit',''))" "$M" 2>/dev/null); [ -n "$B" ] && BASE=$B; fi
+git -C /repo worktree add --detach "$WT" "$BASE" -q || exit 9
 trap 'git -C /repo worktree remove --force "$WT" >/dev/null 2>&1; rm -rf "$WT"' EXIT
 if ! git -C "$WT" apply "$P"; then echo "PATCH DOES NOT APPLY: $P"; exit 8; fi
 cd "$(dirname "$0")/.." && VERIF_REPO="$WT" ./check "$ID" --tier "$TIER"
